@@ -4533,9 +4533,19 @@ class NameCheckVisitor(node_visitor.ReplacingNodeVisitor):
                     self.visit_try_except(node, is_try_star=is_try_star)
 
             # If the try block fails
-            with self.scopes.subscope():
+            with self.scopes.subscope() as interrupted_scope:
                 self.scopes.combine_subscopes([failure_scope])
                 self._generic_visit_list(node.finalbody)
+            if _leaves_enclosing_loop(node) or LEAVES_LOOP in interrupted_scope:
+                # A break or continue inside the try statement runs the finally
+                # block on its way out of the loop body, so the loop must also be
+                # left in the state after the finally block (the scope recorded at
+                # the break/continue itself is the state before it). A break or
+                # continue that ends the finally block itself leaves the loop from
+                # this state too (it swallows a pending exception).
+                scope = self.scopes.current_scope()
+                if isinstance(scope, FunctionScope) and LEAVES_SCOPE not in interrupted_scope:
+                    scope.current_loop_scopes.append(interrupted_scope)
 
             # For the case where execution continues after the try-finally
             self.scopes.combine_subscopes([success_scope])
@@ -6153,6 +6163,32 @@ def _has_annotation_for_attr(typ: type, attr: str) -> bool:
 
 def _is_asynq_future(value: Value) -> bool:
     return value.is_type(asynq.FutureBase) or value.is_type(asynq.AsyncTask)
+
+
+def _leaves_enclosing_loop(node: "TryNode") -> bool:
+    """Whether the try body, handlers or else clause contain a break or continue
+    that belongs to a loop around the try statement."""
+
+    def search(stmts: Iterable[ast.AST]) -> bool:
+        for stmt in stmts:
+            if isinstance(stmt, (ast.Break, ast.Continue)):
+                return True
+            if isinstance(
+                stmt,
+                (ast.For, ast.AsyncFor, ast.While, ast.FunctionDef, ast.AsyncFunctionDef, ast.ClassDef, ast.Lambda),
+            ):
+                # break/continue in a nested loop body leave that loop; its else
+                # clause still belongs to the enclosing loop
+                if isinstance(stmt, (ast.For, ast.AsyncFor, ast.While)) and search(
+                    stmt.orelse
+                ):
+                    return True
+                continue
+            if search(ast.iter_child_nodes(stmt)):
+                return True
+        return False
+
+    return search([*node.body, *node.handlers, *node.orelse])
 
 
 def _without_constraints(value: Value) -> Value:
